@@ -125,6 +125,8 @@ func c16(c *Ctx) (*report.Result, error) {
 	}
 	res.Explanation = "O16.1: " + res.Explanation + " O16.2-O16.6: SSA of interceptor.AccessControlInterceptor, proxy.makeServerOptions, proxy.buildProxyServer, workflowServiceProxyServer.ListNamespaces: edge-sensitive must-pass-through of the namespace test before the handler, order of the interceptor chains as built by append, reachability of the translation-bypass header from the ACL code, control dependence of every returned namespace on IsAllowed."
 	_ = typegraph.Root
+	res.RuleDoc["O16.6"] = "membership is exact: AccessControl.IsAllowed admits a name only if the list is empty or the name itself is an element of the list, and the list is stored under its own elements (same analysis as O15.6) - namespace names are case-sensitive, so a normalising comparison lets a request for another namespace through"
+	checkIsAllowedExact(c, res, "O16.6")
 	return res, nil
 }
 
